@@ -14,6 +14,21 @@ namespace Icontract.Ex
 module globals (the builtins come last, see `Env`) - given as look-ups in this order -/
 def pyScope (ls : List (List (String × Val))) : List (String × Val) := ls.flatten
 
+/-- what a name means inside a lambda condition called with the keyword arguments `kwargs` (the call has gone through:
+every parameter without a default is supplied): a PARAMETER is bound to the argument passed for it, else to its default;
+any other name is a free variable - the closure cell of that name, else the global of the condition's module.  An argument
+of the decorated function's call which the condition does not take plays no part. -/
+def pyResolve (params : List (String × Option Val)) (kwargs closure globals : List (String × Val)) (n : String) : Option Val :=
+  match params.find? (fun q => q.1 == n) with
+  | some q =>
+    (match lookup kwargs n with
+     | some v => some v
+     | none => q.2)
+  | none =>
+    (match lookup closure n with
+     | some v => some v
+     | none => lookup globals n)
+
 mutual
 def pyEval (ops : Ops) (env : Env) : Expr → Except Exc (Val × Log)
   | .const i v => .ok (v, [(i, v)])
